@@ -1,4 +1,4 @@
-import MorfuseModel.Emit.Sim
+import MorfuseModel.Emit.Fuse
 /-!
 # Simulation between the two passes: the emitter, for the class `Node.plain`
 -/
@@ -13,10 +13,8 @@ macro_rules | `(tactic| pl_prim) => `(tactic| with_reducible refine wp_mono ((mn
 macro_rules | `(tactic| pl_prim) => `(tactic| with_reducible refine wp_mono ((mn_allL _).l _) ?_ (fun _ _ => trivial))
 
 mutual
-/-- the trees the simulation is proved for: no `try`, no `switch` (their counting sub-emitters), no unary minus (its
-folding reads code bytes back), and no read of a plain variable of a listener (`rd = 0`: the only place where the two
-passes can take different branches, the `LOAD_x_VAR → LOAD_STORE_x_VAR` fusion); assignments to such variables, built-in
-getters, commands, all other expressions and all loops are in the class -/
+/-- the trees the simulation is proved for: no unary minus (its
+folding reads code bytes back); listener bytes of fields as the parser produces them (`≤ 6`) -/
 def Node.plain : Node → Bool
   | .next n => n.plain
   | .list xs => xs.plain
@@ -28,7 +26,7 @@ def Node.plain : Node → Bool
   | .and_ a b | .or_ a b => a.plain && b.plain
   | .mcmd _ l _ ps | .mcmdx _ l _ ps => l.plain && ps.plain
   | .cmd _ _ ps | .cmdx _ _ ps => ps.plain
-  | .field _ _ rd _ l => l.plain && (match l with | .listener _ => decide (rd = 1 ∨ rd = 2) | _ => true)
+  | .field _ _ _ _ l => l.plain && (match l with | .listener b => decide (b ≤ 6) | _ => true)
   | .vec a b c => a.plain && b.plain && c.plain
   | .f1 op x => decide (op ≠ OP_UN_MINUS) && x.plain
   | .f2 _ a b => a.plain && b.plain
@@ -36,7 +34,8 @@ def Node.plain : Node → Bool
   | .idx a i => a.plain && i.plain
   | .carr a xs => a.plain && xs.plain
   | .marr xs => xs.plain
-  | .try_ _ _ | .switch _ _ => false
+  | .try_ b c => b.plain && c.plain
+  | .switch e b => e.plain && b.plain
   | _ => true
 /-- lvalues (`EmitAssignmentStatement`, `EmitRef`): a field of anything in the class, or an element of an lvalue -/
 def Node.plainA : Node → Bool
@@ -85,10 +84,10 @@ macro_rules | `(tactic| rel_close) => `(tactic| assumption)
 
 /-! ## `AddLabel` (a pair comes back) -/
 
-def J2 (L : Nat) (x y : R (Bool × St)) (Q : Bool × St → Bool × St → Prop) : Prop :=
+def J2 {α : Type} (L : Nat) (x y : R (α × St)) (Q : α × St → α × St → Prop) : Prop :=
   ∀ r, x = .ok r → pl r.2 ≤ L → wp y (fun r' => Q r r') ECO
 
-theorem J.bind2 {L : Nat} {x1 y1 : R (Bool × St)} {f1 f2 : Bool × St → R St} {Q1 : Bool × St → Bool × St → Prop}
+theorem J.bind2 {α : Type} {L : Nat} {x1 y1 : R (α × St)} {f1 f2 : α × St → R St} {Q1 : α × St → α × St → Prop}
     {Q : St → St → Prop} (h1 : J2 L x1 y1 Q1) (hm : ∀ r, Mono r.2 (f1 r)) (h2 : ∀ r r', Q1 r r' → J L (f1 r) (f2 r') Q) :
     J L (x1 >>= f1) (y1 >>= f2) Q := by
   intro c'' hx hL
@@ -159,17 +158,6 @@ theorem J2_addLabel {L : Nat} {c p : St} (h : Rel L c p) (i : Nat) (pr cl1 cl2 :
       exact ⟨trivial, hc _ ⟨hb.cc, hb.pc, hb.w.congr rfl rfl rfl rfl, hb.gross, hb.pos, hb.len, hb.nb, hb.nc, hb.cb, hb.cct, hb.sd⟩⟩
 
 /-! ## the emitter -/
-
-/-- reading a plain variable of a listener: the only place where the two passes can take different branches -/
-def gameVarBlock (s : St) (b index prevIndex ev : Nat) : R St := do
-  let p ← s.prevOp
-  if p.op ≠ OP_LOAD_GAME_VAR + b ∨ prevIndex ≠ index then
-    let s ← s.emitOp (OP_STORE_GAME_VAR + b)
-    s.write (le 4 index ++ le 4 ev)
-  else
-    let s ← s.absorb
-    let s ← s.emitOp (OP_LOAD_STORE_GAME_VAR + b)
-    .ok (s.moveFwd 8)
 
 /-- the statement at one node: for the three functions, under membership in the class -/
 structure MSP (n : Node) : Prop where
